@@ -189,3 +189,17 @@ Proof.
   destruct (N.eq_dec (mem (crun_ (cinit f) ops) k) (file (crun_ (cinit f) ops) k)) as [E|NE]; [symmetry; exact E|].
   rewrite (U k NE) in H. discriminate.
 Qed.
+
+(* C17: whatever a step does (failed or not), the file holds for every slice either what it held before or what the
+   running device reads - a failed flush or eviction never puts anything else there, and never touches `mem` *)
+Theorem cstep_file_old_or_current s o k :
+  file (cstep s o) k = file s k \/ file (cstep s o) k = mem (cstep s o) k.
+Proof.
+  destruct o as [k0 v| |w|k0|k0]; cbn [cstep file mem]; unfold setn.
+  - left. reflexivity.
+  - destruct (cdirty s k); [right|left]; reflexivity.
+  - destruct (cdirty s k && existsb (N.eqb k) w); [right|left]; reflexivity.
+  - destruct (cdirty s k0); [|left; reflexivity]. unfold setn.
+    destruct (N.eqb_spec k k0) as [->|Hne]; [right|left]; reflexivity.
+  - left. reflexivity.
+Qed.
